@@ -35,12 +35,34 @@ pub struct Ledger {
     pub dgrams_sent: BTreeMap<u64, (bool, usize)>,
     pub dgrams_recv: BTreeMap<u64, u32>,
     pub next_dgram_id: u64,
+    /// Reference model of each side's datagram receive buffer: [client, server] -> FIFO of (id, len),
+    /// fed by the world with DATAGRAM frames the connection actually processed
+    pub dg_model: [std::collections::VecDeque<(Option<u64>, usize)>; 2],
+    pub dg_evicted: u64,
+    /// the model is only fed when the wire is observable (SimCrypto)
+    pub dg_model_enabled: bool,
     pub viol: Vec<Viol>,
     /// closing: (side that called close, code, reason)
     pub closed_by: Option<(Side, u64, Vec<u8>)>,
 }
 
 impl Ledger {
+    /// A DATAGRAM frame was processed by the receiving connection `side_idx` whose buffer holds
+    /// at most `cap` bytes: evict oldest first until it fits
+    pub fn dg_arrived(&mut self, side_idx: usize, id: Option<u64>, len: usize, cap: usize) {
+        let q = &mut self.dg_model[side_idx];
+        let mut used: usize = q.iter().map(|x| x.1).sum();
+        while used + len > cap {
+            match q.pop_front() {
+                Some((_, l)) => {
+                    used -= l;
+                    self.dg_evicted += 1;
+                }
+                None => break,
+            }
+        }
+        q.push_back((id, len));
+    }
     pub fn fail(&mut self, sig: &str, msg: String) {
         if self.viol.len() < 8 {
             self.viol.push(Viol { sig: sig.to_string(), msg });
@@ -177,6 +199,7 @@ pub struct AppStats {
     pub dgram_too_large: u64,
     pub dgram_blocked: u64,
     pub dgram_recv: u64,
+    pub dgram_at_max: u64,
     pub key_updates: u64,
 }
 
@@ -200,6 +223,13 @@ pub struct App {
     pub record_events: bool,
     pub wants_turn: bool,
     pub data_after_close: u64,
+    pub dgram_events: u64,
+    pub dgram_blocked_pending: bool,
+    pub unblocked_events: u64,
+    pub last_sent_dgram: u64,
+    /// (local datagram_receive_buffer_size, local datagram_send_buffer_size)
+    pub dgram_cfg: (Option<usize>, usize),
+    pub peer_dgram_recv: Option<usize>,
 }
 
 fn dir_of(bidi: bool) -> Dir {
@@ -238,6 +268,12 @@ impl App {
             record_events: false,
             wants_turn: false,
             data_after_close: 0,
+            dgram_events: 0,
+            dgram_blocked_pending: false,
+            unblocked_events: 0,
+            last_sent_dgram: 0,
+            dgram_cfg: (Some(usize::MAX), usize::MAX),
+            peer_dgram_recv: None,
         }
     }
 
@@ -311,8 +347,17 @@ impl App {
                     }
                 }
             }
-            Event::DatagramReceived => self.recv_dgrams(c),
-            Event::DatagramsUnblocked => {}
+            Event::DatagramReceived => {
+                self.dgram_events += 1;
+                let every = self.mine.dgram_recv_every.max(1) as u64;
+                if self.dgram_events % every == 0 {
+                    self.recv_dgrams(c);
+                }
+            }
+            Event::DatagramsUnblocked => {
+                self.unblocked_events += 1;
+                self.dgram_blocked_pending = false;
+            }
         }
     }
 
@@ -708,6 +753,21 @@ impl App {
         while let Some(d) = c.datagrams().recv() {
             self.stats.dgram_recv += 1;
             let mut l = self.ledger.borrow_mut();
+            if l.dg_model_enabled {
+                let got_id = if d.len() >= 8 { Some(u64::from_be_bytes(d[..8].try_into().unwrap())) } else { None };
+                let side_idx = self.side.is_server() as usize;
+                match l.dg_model[side_idx].pop_front() {
+                    Some((id, len)) => {
+                        if id != got_id || len != d.len() {
+                            l.fail(
+                                "c16/recv-order",
+                                format!("recv() returned datagram id {got_id:?} ({} bytes) but the oldest-first buffer model expected id {id:?} ({len} bytes)", d.len()),
+                            );
+                        }
+                    }
+                    None => l.fail("c16/recv-unexpected", format!("recv() returned datagram id {got_id:?} but the receive buffer model is empty")),
+                }
+            }
             if d.len() >= 8 {
                 let id = u64::from_be_bytes(d[..8].try_into().unwrap());
                 match l.dgrams_sent.get(&id).copied() {
@@ -771,6 +831,14 @@ impl App {
                 }
                 AuxOp::SetMaxStreams { bidi, n } => c.set_max_concurrent_streams(dir_of(bidi), VarInt::from_u64(n).unwrap()),
                 AuxOp::Datagram { size, drop } => self.send_dgram(c, size as usize, drop),
+                AuxOp::DatagramRel { delta, drop } => {
+                    if let Some(m) = c.datagrams().max_size() {
+                        let size = (m as i64 + delta as i64).max(0) as usize;
+                        self.send_dgram(c, size, drop);
+                    } else {
+                        self.send_dgram(c, 100, drop);
+                    }
+                }
                 AuxOp::Close { code, reason_len } => {
                     let reason = vec![b'r'; reason_len as usize];
                     self.ledger.borrow_mut().closed_by.get_or_insert((self.side, code as u64, reason.clone()));
@@ -787,20 +855,73 @@ impl App {
     }
 
     pub fn send_dgram(&mut self, c: &mut Connection, size: usize, drop: bool) {
+        if c.is_closed() || !self.connected {
+            return;
+        }
         let id = {
             let mut l = self.ledger.borrow_mut();
             l.next_dgram_id += 1;
             l.next_dgram_id
         };
         let payload = dgram_payload(self.key, id, size);
-        match c.datagrams().send(Bytes::from(payload), drop) {
+        let max = c.datagrams().max_size();
+        let space = c.datagrams().send_buffer_space();
+        let p = c.verif_probe();
+        let cfg_send = self.dgram_cfg.1;
+        let expect: &str = if self.dgram_cfg.0.is_none() {
+            "Disabled"
+        } else if max.is_none() {
+            "UnsupportedByPeer"
+        } else if size > max.unwrap().min(cfg_send) {
+            "TooLarge"
+        } else if !drop && p.datagram_outgoing_total + size > cfg_send {
+            "Blocked"
+        } else {
+            "Ok"
+        };
+        if space != cfg_send.saturating_sub(p.datagram_outgoing_total) {
+            self.ledger.borrow_mut().fail(
+                "c16/buffer-space",
+                format!("send_buffer_space() = {space} but configured {cfg_send} minus queued {} differs", p.datagram_outgoing_total),
+            );
+        }
+        if let Some(m) = max {
+            if m + 1 > p.current_mtu as usize {
+                self.ledger.borrow_mut().fail("c16/max-size-mtu", format!("max_size() = {m} does not fit a packet on the current path MTU {}", p.current_mtu));
+            }
+            if let Some(peer) = self.peer_dgram_recv {
+                if m > peer {
+                    self.ledger.borrow_mut().fail("c16/max-size-peer", format!("max_size() = {m} exceeds the peer's advertised limit {peer}"));
+                }
+            }
+        }
+        let got = match c.datagrams().send(Bytes::from(payload), drop) {
             Ok(()) => {
                 self.stats.dgram_sent += 1;
+                self.last_sent_dgram = id;
                 self.ledger.borrow_mut().dgrams_sent.insert(id, (self.side.is_client(), size));
+                if max == Some(size) {
+                    self.stats.dgram_at_max += 1;
+                }
+                "Ok"
             }
-            Err(SendDatagramError::TooLarge) => self.stats.dgram_too_large += 1,
-            Err(SendDatagramError::Blocked(_)) => self.stats.dgram_blocked += 1,
-            Err(_) => {}
+            Err(SendDatagramError::TooLarge) => {
+                self.stats.dgram_too_large += 1;
+                "TooLarge"
+            }
+            Err(SendDatagramError::Blocked(_)) => {
+                self.stats.dgram_blocked += 1;
+                self.dgram_blocked_pending = true;
+                "Blocked"
+            }
+            Err(SendDatagramError::Disabled) => "Disabled",
+            Err(SendDatagramError::UnsupportedByPeer) => "UnsupportedByPeer",
+        };
+        if got != expect {
+            self.ledger.borrow_mut().fail(
+                "c16/send-result",
+                format!("send({size} bytes, drop={drop}) returned {got} but the model expects {expect} (max_size {max:?}, send buffer {cfg_send}, queued {})", p.datagram_outgoing_total),
+            );
         }
     }
 
